@@ -37,7 +37,9 @@ ATOMS = ["a", "b", ".", "\\.", "\\[", "\\n", "[ab]", "[^a]", "[a-c]", "[.]", "[a
 SMALL = ["a", ".", "[^a]", "[a||b]", "\\p{L}", "\\n", "[a-c]", "\U0001F600"]
 TINY = ["a", ".", "[^b]", "\\n"]
 QUANTS = ["*", "+", "?", "{2}", "{1,2}", "{2,}"]
-ALPHA = ["a", "b", "c", "1", "\n", "\r", " ", ".", "|", "&", "~", "-", "[", "\U0001F600"]
+ALPHA = ["a", "b", "c", "1", "\n", "\r", " ", ".", "|", "&", "~", "-", "[", "\U0001F600",
+         # non-ASCII letter / decimal digit: what \\p{L}, \\P{L} and \\p{Nd} have to classify
+         "\u00e9", "\u0663"]
 ALPHA_S = ["a", "b", "\n", "|", "-", "\U0001F600"]
 INVALID = ["(", ")", "[", "]", "a{", "{", "}", "\\d", "\\w", "a**", "a|*", "+", "?a", "\\p{Xx}", "\\p{L", "[a", "\\",
            "(?i)a", "(?:a)", "a{,2}", "[]", "[^]", "a\\", "(a", "a)", "[a-]b]", "\\1", "a{1,2,3}", "\\p{}", "\\x41",
